@@ -96,6 +96,8 @@ def gen_library(rng):
             for c in counts:
                 rows.append([[rng.randrange(nv)] + ([rng.randrange(len(normals))] if use_normals else []) for _ in range(c)])
             prims.append({'kind': kind, 'symbol': sym, 'normals': use_normals, 'polys': rows})
+        if gi == 5:
+            prims = []          # a geometry without primitives: its bound object is empty (and falsy) but must be yielded
         geoms.append({'id': 'geom%d' % (gi + 1), 'verts': verts, 'normals': normals, 'share': share, 'prims': prims})
     lights = [{'id': 'lightP', 'kind': 'point'}, {'id': 'lightD', 'kind': 'directional'},
               {'id': 'lightS', 'kind': 'spot'}, {'id': 'lightA', 'kind': 'ambient'}]
@@ -112,7 +114,9 @@ def gen_library(rng):
         return m
     ctrls = [{'id': 'skin1', 'kind': 'skin', 'geometry': 'geom1', 'bsm': small_affine()},
              {'id': 'skin2', 'kind': 'skin', 'geometry': rng.choice(geoms)['id'], 'bsm': small_affine()},
-             {'id': 'morph1', 'kind': 'morph', 'geometry': 'geom2', 'targets': ['geom3', 'geom1']}]
+             {'id': 'morph1', 'kind': 'morph', 'geometry': 'geom2', 'targets': ['geom3', 'geom1']},
+             # valid library objects that are FALSY in Python (len() == 0): a skin that weights no vertex
+             {'id': 'skin0', 'kind': 'skin', 'geometry': 'geom3', 'bsm': small_affine(), 'empty': True}]
     return {'materials': mats, 'symbols': symbols, 'geoms': geoms, 'lights': lights, 'cameras': cams, 'controllers': ctrls}
 
 
@@ -542,10 +546,10 @@ def render_controller(c):
                                              el('param', [('name', 'WEIGHT'), ('type', 'float')]))))
     body += el('joints', [], el('input', [('semantic', 'JOINT'), ('source', '#%s-joints' % cid)]) +
                el('input', [('semantic', 'INV_BIND_MATRIX'), ('source', '#%s-poses' % cid)]))
-    body += el('vertex_weights', [('count', 1)],
+    body += el('vertex_weights', [('count', 0 if c.get('empty') else 1)],
                el('input', [('semantic', 'JOINT'), ('source', '#%s-joints' % cid), ('offset', 0)]) +
                el('input', [('semantic', 'WEIGHT'), ('source', '#%s-weights' % cid), ('offset', 1)]) +
-               el('vcount', [], '1') + el('v', [], '0 0'))
+               ('<vcount></vcount><v></v>' if c.get('empty') else el('vcount', [], '1') + el('v', [], '0 0')))
     return el('controller', [('id', cid)], el('skin', [('source', '#' + c['geometry'])], body))
 
 
